@@ -69,12 +69,13 @@ class C02Scenario(ChangeScenario):
             return hid in cyc['failed'] or (hid in cyc['done'] and all(k in cyc['done'] for k in kids))
 
         resume_ids = {h['id'] for h in self.params['handlers'] if h['on'] == 'resume'}
+        resume_leaves = {i for h in resume_ids for i in [h] + self.children(h) if not self.children(i)}   # a parent's own return is no success yet
         resumed: dict[tuple[str, str, str], float] = {}   # (process, uid, resume handler) -> when it succeeded
 
         for t, k, p in env.obs:
             if k == 'call' and p.get('rv') is not None and int(p['rv']) < own_rv.get(p.get('name'), 0):
                 disturbed = True   # a stale view (the echo was later than the consistency timeout): the statement's carve-out
-            if k == 'call' and p['id'] in resume_ids and p['outcome'].split(',')[0] == 'ok':
+            if k == 'call' and p['id'] in resume_leaves and p['outcome'].split(',')[0] == 'ok':
                 # (e) a resume handler's recorded success holds for the process, whatever cause the cycle continues under
                 key = (p['op'], p['uid'], p['id'])
                 if key in resumed and not disturbed:
@@ -285,6 +286,18 @@ def scenarios(tier: str) -> tuple[list[C02Scenario], list[C02Scenario], list[C02
             plain.append(C02Scenario(handlers=handlers, lifecycle=lc, user=user, settings=settings, horizon=40.0,
                                      delays=False, early_user=False, time_dev=False))
             timing.append(C02Scenario(handlers=handlers, lifecycle=lc, user=user, settings=settings, horizon=40.0))
+    # 6b. ... and the resume handler has sub-handlers: one recorded as done, its sibling between retries, when the change supersedes the cause
+    for lc in ('asap', 'all_at_once'):
+        for sb in (['temp', 'ok'], ['temp', 'temp', 'ok']):
+            handlers = [dict(id='c1', on='create', script=['ok']), dict(id='r1', on='resume', script=['ok']), dict(id='u1', on='update', script=['ok'])]
+            subs = {'r1': [dict(id='s1', script=['ok']), dict(id='s2', script=sb)]}
+            for edit in (('label', 'a', 'l', 'v'), ('spec', 'a', 2)):
+                for t_edit in (11.0, 12.0):
+                    user = base_user + [(10.0, 'restart'), (t_edit, *edit)]
+                    plain.append(C02Scenario(handlers=handlers, subs=subs, lifecycle=lc, user=user, settings=settings, horizon=45.0,
+                                             delays=False, early_user=False, time_dev=False))
+            timing.append(C02Scenario(handlers=handlers, subs=subs, lifecycle=lc, user=base_user + [(10.0, 'restart'), (11.0, 'spec', 'a', 2)],
+                                      settings=settings, horizon=45.0))
     return plain, timing, crash
 
 
